@@ -2,6 +2,7 @@ package chaingen
 
 import (
 	"bytes"
+	"crypto/sha256"
 	"fmt"
 	"sort"
 	"strings"
@@ -460,6 +461,42 @@ func init() {
 		}
 		return true
 	})
+	// slashability is judged at the CURRENT epoch: evidence dated inside the offender's window does not help once it is withdrawable
+	mut("pslash_withdrawable_evidence_inside_window", "pslash", func(m *mctx) bool {
+		v, ok := m.find(func(i common.ValidatorIndex, f *common.FlatValidator) bool {
+			return !f.Slashed && f.WithdrawableEpoch <= m.p.Epoch && f.WithdrawableEpoch > 0 && f.ActivationEpoch < f.WithdrawableEpoch
+		})
+		if !ok {
+			return false
+		}
+		f := m.p.Flats[v]
+		slot := common.Slot(f.WithdrawableEpoch-1)*m.c.Spec.SLOTS_PER_EPOCH + common.Slot(m.r.Intn(int(m.c.Spec.SLOTS_PER_EPOCH)))
+		m.p.B.ProposerSlashings = phase0.ProposerSlashings{m.c.makeProposerSlashing(m.p, v, slot)}
+		m.note = fmt.Sprintf("withdrawable_since_%d_epochs", m.p.Epoch-f.WithdrawableEpoch)
+		return true
+	})
+	// is_slashable_validator: epoch < withdrawable_epoch — refused in exactly the epoch current_epoch == withdrawable_epoch …
+	mut("pslash_at_withdrawable_epoch", "pslash", func(m *mctx) bool {
+		v, ok := m.find(func(i common.ValidatorIndex, f *common.FlatValidator) bool {
+			return !f.Slashed && f.ActivationEpoch <= m.p.Epoch && f.WithdrawableEpoch == m.p.Epoch
+		})
+		if !ok {
+			return false
+		}
+		m.p.B.ProposerSlashings = phase0.ProposerSlashings{m.c.makeProposerSlashing(m.p, v, m.p.Slot)}
+		return true
+	})
+	// … and still fine one epoch earlier (the control: a valid block)
+	mut("pslash_last_slashable_epoch", "accepted", func(m *mctx) bool {
+		v, ok := m.find(func(i common.ValidatorIndex, f *common.FlatValidator) bool {
+			return !f.Slashed && f.ActivationEpoch <= m.p.Epoch && f.WithdrawableEpoch == m.p.Epoch+1 && i != m.p.B.ProposerIndex
+		})
+		if !ok {
+			return false
+		}
+		m.p.B.ProposerSlashings = phase0.ProposerSlashings{m.c.makeProposerSlashing(m.p, v, m.p.Slot)}
+		return true
+	})
 	mut("pslash_index_out_of_range", "pslash", func(m *mctx) bool {
 		if uint64(len(m.p.B.ProposerSlashings)) >= uint64(m.c.Spec.MAX_PROPOSER_SLASHINGS) {
 			return false
@@ -653,6 +690,39 @@ func init() {
 		as := m.c.makeAttesterSlashing(m.p, []common.ValidatorIndex{v}, true)
 		as.Attestation1, as.Attestation2 = as.Attestation2, as.Attestation1
 		m.p.B.AttesterSlashings = append(m.p.B.AttesterSlashings, as)
+		return true
+	})
+	mut("aslash_at_withdrawable_epoch", "aslash", func(m *mctx) bool {
+		v, ok := m.find(func(i common.ValidatorIndex, f *common.FlatValidator) bool {
+			return !f.Slashed && f.ActivationEpoch <= m.p.Epoch && f.WithdrawableEpoch == m.p.Epoch
+		})
+		if !ok {
+			return false
+		}
+		m.p.B.AttesterSlashings = phase0.AttesterSlashings{m.c.makeAttesterSlashing(m.p, []common.ValidatorIndex{v}, m.r.Bool())}
+		return true
+	})
+	mut("aslash_last_slashable_epoch", "accepted", func(m *mctx) bool {
+		v, ok := m.find(func(i common.ValidatorIndex, f *common.FlatValidator) bool {
+			return !f.Slashed && f.ActivationEpoch <= m.p.Epoch && f.WithdrawableEpoch == m.p.Epoch+1 && i != m.p.B.ProposerIndex
+		})
+		if !ok {
+			return false
+		}
+		m.p.B.AttesterSlashings = phase0.AttesterSlashings{m.c.makeAttesterSlashing(m.p, []common.ValidatorIndex{v}, m.r.Bool())}
+		return true
+	})
+	mut("aslash_withdrawable_evidence_inside_window", "aslash", func(m *mctx) bool {
+		v, ok := m.find(func(i common.ValidatorIndex, f *common.FlatValidator) bool {
+			return !f.Slashed && f.WithdrawableEpoch <= m.p.Epoch && f.WithdrawableEpoch > 1 && f.ActivationEpoch < f.WithdrawableEpoch
+		})
+		if !ok {
+			return false
+		}
+		save := m.p.evidenceEpoch
+		m.p.evidenceEpoch = m.p.Flats[v].WithdrawableEpoch - 1
+		m.p.B.AttesterSlashings = phase0.AttesterSlashings{m.c.makeAttesterSlashing(m.p, []common.ValidatorIndex{v}, false)}
+		m.p.evidenceEpoch = save
 		return true
 	})
 	mut("aslash_nobody_slashable", "aslash", func(m *mctx) bool {
@@ -1021,6 +1091,57 @@ func init() {
 		d.Proof[m.r.Intn(depositDepth+1)][m.r.Intn(32)] ^= 1 << uint(m.r.Intn(8))
 		return true
 	})
+	// a deposit for an EXISTING public key (a top-up) is verified against the deposit root like any other
+	mut("deposit_topup_bad_proof", "deposit", func(m *mctx) bool {
+		b := m.p.B
+		if len(b.Deposits) == 0 {
+			return false
+		}
+		known := map[common.BLSPubkey]common.ValidatorIndex{}
+		for i := range m.p.Flats {
+			if i < len(m.c.Vals) {
+				known[PubOf(m.c.Vals[i].Key)] = common.ValidatorIndex(i)
+			}
+		}
+		var tops []int
+		for i := range b.Deposits {
+			if _, ok := known[b.Deposits[i].Data.Pubkey]; ok {
+				tops = append(tops, i)
+			}
+		}
+		if len(tops) > 0 {
+			d := &b.Deposits[tops[m.r.Intn(len(tops))]]
+			switch m.r.Intn(3) {
+			case 0:
+				d.Proof[m.r.Intn(depositDepth+1)][m.r.Intn(32)] ^= 1 << uint(m.r.Intn(8))
+				m.note = "honest_topup_proof_bit"
+			case 1:
+				d.Data.Amount += m.c.Spec.EFFECTIVE_BALANCE_INCREMENT
+				m.note = "honest_topup_amount_raised"
+			default:
+				d.Data.Amount--
+				m.note = "honest_topup_amount_lowered"
+			}
+			return true
+		}
+		// no top-up among the expected deposits: the LAST expected deposit is replaced by a forged top-up of a registered key
+		// (the proof of the replaced deposit, or zeros)
+		v, ok := m.find(func(i common.ValidatorIndex, f *common.FlatValidator) bool { return true })
+		if !ok {
+			return false
+		}
+		d := &b.Deposits[len(b.Deposits)-1]
+		d.Data = common.DepositData{Pubkey: PubOf(m.c.Vals[v].Key), WithdrawalCredentials: m.credsOf(v), Amount: m.c.Spec.EFFECTIVE_BALANCE_INCREMENT * common.Gwei(1+m.r.Intn(8))}
+		if m.r.Bool() {
+			for i := range d.Proof {
+				d.Proof[i] = common.Root{}
+			}
+			m.note = "forged_topup_zero_proof"
+		} else {
+			m.note = "forged_topup_foreign_proof"
+		}
+		return true
+	})
 	mut("deposit_data_changed", "deposit", func(m *mctx) bool {
 		b := m.p.B
 		if len(b.Deposits) == 0 {
@@ -1272,10 +1393,36 @@ func init() {
 	})
 	mut("blschange_not_bls_credentials", "blschange", func(m *mctx) bool {
 		v, ok := blsVal(m, false)
+		if ok && m.credsOf(v)[0] != common.ETH1_ADDRESS_WITHDRAWAL_PREFIX {
+			ok = false
+		}
 		if !ok {
 			return false
 		}
 		k := WithdrawalKeyBase + m.c.Vals[v].Key
+		return addChange(m, m.c.makeBLSChange(v, k, addrOf(k)))
+	})
+	// credentials whose first byte is neither 0x00 nor 0x01: not BLS credentials, even when the rest is the hash of the key
+	mut("blschange_odd_prefix_credentials", "blschange", func(m *mctx) bool {
+		if m.p.Fork < Capella {
+			return false
+		}
+		v, ok := m.find(func(i common.ValidatorIndex, f *common.FlatValidator) bool {
+			wc := m.credsOf(i)
+			if wc[0] == common.BLS_WITHDRAWAL_PREFIX || wc[0] == common.ETH1_ADDRESS_WITHDRAWAL_PREFIX {
+				return false
+			}
+			wp := PubOf(WithdrawalKeyBase + m.c.Vals[i].Key)
+			h := sha256.Sum256(wp[:])
+			return bytes.Equal(h[1:], wc[1:])
+		})
+		if !ok {
+			return false
+		}
+		k := WithdrawalKeyBase + m.c.Vals[v].Key
+		wc := m.credsOf(v)
+		m.note = fmt.Sprintf("prefix_%02x", wc[0])
+		m.p.B.BLSChanges = nil
 		return addChange(m, m.c.makeBLSChange(v, k, addrOf(k)))
 	})
 	mut("blschange_signature", "blschange", func(m *mctx) bool {
@@ -1720,6 +1867,8 @@ func (c *Chain) CorruptStream(n int) {
 var MustHave = []string{"exit_same_twice", "exit_already_initiated", "aslash_duplicate_index_valid_signature",
 	"aslash_unsorted_valid_signature", "aslash_indices", "aslash_surround_reverse_order", "sync_sig_new_fork_version",
 	"pslash_pre_fork_headers_new_version", "exit_pre_fork_epoch_new_version", "att_pre_fork_target_new_version", "exit_too_young", "blschange_wrong_from_key",
+	"pslash_at_withdrawable_epoch", "aslash_at_withdrawable_epoch", "pslash_last_slashable_epoch", "aslash_last_slashable_epoch",
+	"pslash_withdrawable_evidence_inside_window", "aslash_withdrawable_evidence_inside_window", "blschange_odd_prefix_credentials", "deposit_topup_bad_proof",
 	"deposit_bad_proof", "deposit_missing", "deposit_none", "deposit_unexpected", "payload_withdrawals", "att_out_of_inclusion_window"}
 
 // MustHavePerFork: once per fork (of the forks this chain covers, see CoverForks).
@@ -1787,6 +1936,7 @@ func (c *Chain) mustHaveCorruptions(r *hx.Rng) {
 		}
 	}
 	order := make([]int, 0, len(c.Honest))
+	order = append(order, c.withdrawableEpochSteps()...)
 	for i := range c.Honest {
 		if c.isForkStart(c.Honest[i].Blk.Slot) {
 			order = append(order, i)
@@ -1835,6 +1985,53 @@ func (c *Chain) mustHaveCorruptions(r *hx.Rng) {
 	for k := range perFork {
 		c.Stats.Inc("corrupt_must_have_missing." + k)
 	}
+}
+
+// withdrawableEpochSteps: honest steps in the epoch W (and W-1) of an unslashed validator with a finite withdrawable epoch W
+// (read from the final state), for the *_at_withdrawable_epoch / *_last_slashable_epoch corruptions.
+func (c *Chain) withdrawableEpochSteps() (out []int) {
+	vals, err := c.St.Validators()
+	if err != nil {
+		return nil
+	}
+	flats, err := common.FlattenValidators(vals)
+	if err != nil {
+		return nil
+	}
+	stepAt := map[common.Epoch]int{}
+	for i := len(c.Honest) - 1; i >= 0; i-- {
+		stepAt[c.Spec.SlotToEpoch(c.Honest[i].Blk.Slot)] = i
+	}
+	seen := map[int]bool{}
+	add := func(e common.Epoch) bool {
+		si, ok := stepAt[e]
+		if !ok || seen[si] {
+			return ok
+		}
+		seen[si] = true
+		out = append(out, si)
+		return true
+	}
+	pairs := 0
+	for i := range flats {
+		f := &flats[i]
+		if f.Slashed || f.WithdrawableEpoch == common.Epoch(FarFuture) || f.WithdrawableEpoch == 0 {
+			continue
+		}
+		if _, ok := stepAt[f.WithdrawableEpoch]; !ok {
+			continue
+		}
+		if _, done := stepAt[f.WithdrawableEpoch]; done && seen[stepAt[f.WithdrawableEpoch]] {
+			continue
+		}
+		add(f.WithdrawableEpoch)
+		add(f.WithdrawableEpoch - 1)
+		pairs++
+		if pairs >= 2 {
+			break
+		}
+	}
+	return out
 }
 
 // preAdvancedCase: the pre-state is first advanced with ProcessSlots to the block's own slot N (no block at N yet); the
@@ -2014,6 +2211,22 @@ func (c *Chain) wrongPreStateCase(r *hx.Rng, hs HonestStep) {
 	pre, err := DecodeState(c.Spec, fk, raw)
 	if err != nil {
 		return
+	}
+	// a long way to the block's slot may cross several sync committee periods: the committees drawn on the way (on a history the
+	// chain never had) are gone from the final state, the AGG table needs them
+	if ps, _ := pre.Slot(); hs.Blk.Slot > ps+c.Spec.SLOTS_PER_EPOCH {
+		st := pre
+		for e := c.Spec.SlotToEpoch(ps) + 1; e <= c.Spec.SlotToEpoch(hs.Blk.Slot); e++ {
+			adv := RunSlots(c.Spec, st, nil, common.Slot(e)*c.Spec.SLOTS_PER_EPOCH, -1)
+			if adv.Err != nil || adv.Panicked || adv.Post == nil {
+				break
+			}
+			st = Unwrap(adv.Post)
+			func() {
+				defer func() { recover() }()
+				c.noteState(st)
+			}()
+		}
 	}
 	for _, validate := range []bool{true, false} {
 		v := 0
